@@ -16,7 +16,7 @@ RULE = ("cubes of 1-3 dims with divisor-rich shapes, StdDev / Variance / Unknown
         "shape, operations sum / mean / nansum / nanmean / prod, both mask switches, plus a spy propagation function; "
         "closed-form oracle in squares. Non-trivial = propagation actually runs on a bin with >= 2 members; distinct = whole case")
 TRUSTED = ["astropy NDUncertainty.propagate(np.add) adds variances (sampled on every case)"]
-ASSUMPTIONS = ["comparison in variance form at rtol 1e-9", "blocks with no contributing member have no defined uncertainty"]
+ASSUMPTIONS = ["comparison in variance form at rtol 1e-9", "a block with no contributing member has the empty root-sum-square, 0 (products: not compared)"]
 OPS = {"sum": np.sum, "mean": np.mean, "nansum": np.nansum, "nanmean": np.nanmean, "prod": np.prod}
 SHAPES = [[4], [6], [4, 6], [6, 4], [2, 6], [2, 6, 4], [4, 2, 3]]
 
@@ -44,6 +44,8 @@ def generate(rng, tier):
             nans = [i for i in range(size) if rng.random() < 0.25]
             if rng.random() < 0.5 and 0 not in nans:
                 nans.append(0)
+            if rng.random() < 0.08:
+                nans = list(range(size))          # every element NaN: nothing contributes anywhere
         yield {"shape": shape, "bins": bins, "op": op, "mask": mk,
                "bits": [rng.random() < 0.4 for _ in range(size)] if mk == "random" else None,
                "data": [rng.randint(1, 4) for _ in range(size)], "sig": [rng.randint(0, 3) for _ in range(size)],
@@ -177,9 +179,8 @@ def run(case):
                         v = np.where(contrib, S2, 0).sum(axis=0)
                         if op in ("mean", "nanmean"):
                             v = v / np.clip(n, 1, None) ** 2
-                    sel = n > 0
-                    if op == "prod":
-                        sel &= ~np.isnan(v)
+                    # a block with no contributing member has an empty sum of squares: 0 (products: undefined)
+                    sel = (n > 0) & ~np.isnan(v) if op == "prod" else np.ones(n.shape, dtype=bool)
                     if gotv.shape != v.shape:
                         fails.append(f"uncertainty shape {gotv.shape} != {v.shape}")
                     elif not np.allclose(gotv[sel], v[sel], rtol=1e-9, atol=1e-12):
